@@ -16,13 +16,44 @@ CLAIM = dict(
           "MinimisationFailedError carries the target and the best size reached; all loops terminate (no other outcome "
           "exists). The exhaustive oracle run on the implementation's tables is proved equivalent to RouteEquiv over all "
           "2^32 keys. Tied to the code by exact equality of output tables and alias dictionaries of every minimiser, of "
-          "_get_best_merge and _get_insertion_index, on generated tables, and by that oracle on every returned table."),
+          "_get_best_merge and _get_insertion_index, on generated tables, and by that oracle on every returned table. "
+          "DEEPENING: (1) the library's own checker utils.table_is_subset_of (with expand_entries, expand_entry, "
+          "get_common_xs, intersect) is modelled exactly and PROVED exact for RouteSame (= RouteEquiv without the "
+          "source-direction clause, which the function never looks at) whenever the first table is well formed and "
+          "orthogonal: True <-> every key matched in a gets the same route from b's first match or is unmatched by b and "
+          "default-routed (tableIsSubsetOf_iff); hence it never answers False on RouteEquiv tables there and the "
+          "repository's test assertion table_is_subset_of(table, minimise(table)) follows from the proved RouteEquiv "
+          "(minimiseTable_passes_tableIsSubsetOf). With no hypothesis it is characterised exactly by the representative "
+          "keys of the surviving expanded entries (tableIsSubsetOf_exact); on overlapping or ill-formed first tables it is "
+          "PROVED neither sound nor complete (three decided counterexamples, replayed on the real code every run), and a "
+          "False answer on identically routing tables always comes from a surviving expanded entry that is hidden at its "
+          "representative key (tableIsSubsetOf_false_on_equiv). (2) the hypothesis 'every entry lists a source' of "
+          "minimise_equiv/minimiseTable_equiv is PROVED necessary (minimise_needs_sources, replayed on the code as an "
+          "out-of-domain note). (3) user alias dictionaries: the exact precondition of orderedCovering_inv is AliasCover "
+          "on the sorted table (userAliases_precondition), under it ordered_covering preserves RouteEquiv "
+          "(orderedCovering_userAliases), without it it need not (userAliases_precondition_needed); the harness decides "
+          "the precondition in Lean (aliasOracle_decides) for every generated dictionary and applies the RouteEquiv oracle "
+          "to the code's output whenever it holds. (4) entries.py: Routes values translated from the source; core(n) = "
+          "value/route bit 6+n for 0..17 else ValueError, links are 0..5, opposite is an involution on links agreeing "
+          "with Links.opposite, core_num inverts core; RoutingTableEntry validates nothing and stores sets."),
     design="3/C04",
     note=("_get_insertion_index is modelled with fixes/c04-empty-table.diff (empty table -> 0); on the unrepaired tree "
           "ordered_covering/minimise/minimise_table raise IndexError for the empty table with target None, reported as a "
           "violation. minimise_equiv/minimiseTable_equiv assume every entry lists at least one source (sources=set() is "
-          "outside the documented domain: {None} means unknown); utils.table_is_subset_of/expand_entries are not modelled "
-          "(not part of the minimisers)."),
+          "outside the documented domain: {None} means unknown) - proved necessary. Only VALIDATED (differential "
+          "correspondence on generated inputs, not proved): that the Lean models equal the Python code, including the new "
+          "models of utils.py/entries.py (expand_entry's recursive generator is modelled as one pass over bits 31..0; "
+          "warnings.warn of expand_entries is not observed; RoutingTableEntry.__str__ and Routes.initial are modelled and "
+          "compared but no theorem is stated about them). table_is_subset_of is NOT claimed correct for overlapping first "
+          "tables: the harness counts how often it is unsound/incomplete there (tags subset_outside_domain_*). For alias "
+          "dictionaries with more than 16 relevant key bits the precondition is not decided and only correspondence is "
+          "checked. Verdict policy: table_is_subset_of/expand_entries/get_common_xs, Routes.core/core_num/initial and "
+          "RoutingTableEntry.__str__ are not used by the minimisers, so a difference between them and their models (or a "
+          "proved counterexample that no longer reproduces) cannot violate C04; it is recorded in the evidence "
+          "(coverage.helper_deviations, tags helper_deviation_*) without changing the verdict, unless "
+          "VERIF_C04_HELPERS=strict is set (then it counts as a correspondence mismatch). The theorems about these "
+          "helpers describe the code only while helper_deviations is empty. utils.intersect, Routes.is_link/opposite (used "
+          "by the minimisers) stay under the ordinary correspondence."),
     technique="Lean 4 theorems over a hand-written model + differential correspondence + Lean spec as oracle")
 
 THEOREMS = ["removeDefault_equiv", "removeDefault_length", "removeDefault_target", "inv_routeEquiv", "inv_init",
@@ -30,7 +61,20 @@ THEOREMS = ["removeDefault_equiv", "removeDefault_length", "removeDefault_target
             "orderedCovering_target", "minimise_equiv", "runMethod_equiv", "runMethod_target", "minimiseTable_equiv",
             "minimiseTable_failure", "minimiseTable_best", "minimiseTables_equiv", "orderedCovering_total",
             "runMethod_total", "minimiseTable_total", "orderedCovering_target_total", "minimiseTable_target_total",
-            "oracle_decides", "oracle_counterexample"]
+            "oracle_decides", "oracle_counterexample", "minimiseTables_routes", "minimiseTables_failure",
+            # deepening round: utils.table_is_subset_of / expand_entries / get_common_xs
+            "tableIsSubsetOf_exact", "tableIsSubsetOf_sound", "tableIsSubsetOf_iff", "tableIsSubsetOf_of_routeEquiv",
+            "routeSame_oracle", "minimiseTable_passes_tableIsSubsetOf", "minimise_passes_tableIsSubsetOf",
+            "tableIsSubsetOf_false_on_equiv", "tableIsSubsetOf_unsound_overlapping", "tableIsSubsetOf_unsound_illformed",
+            "tableIsSubsetOf_incomplete_overlapping",
+            # the sources hypothesis is necessary
+            "minimise_needs_sources",
+            # user-supplied alias dictionaries
+            "userAliases_precondition", "aliasOracle_decides", "userAliases_self", "orderedCovering_userAliases",
+            "userAliases_precondition_needed",
+            # entries.py
+            "routes_members", "routesCore_spec", "routesCore_error", "core_roundtrip", "link_spec", "routeOpposite_links",
+            "bitsOf_testBit", "mkEntry_spec", "defaultRouted_iff_opposite"]
 
 RULE = ("tables of 0-40 entries over 3-10 active key bits embedded at random positions of the 32-bit space (other "
         "positions all-X or fixed to a common value), ternary patterns with table-specific X density, orthogonal "
@@ -45,7 +89,16 @@ RULE = ("tables of 0-40 entries over 3-10 active key bits embedded at random pos
         "_refine_upcheck/_refine_downcheck/_Merge.apply; thorough adds every Good table of <= 4 entries over 2 bits "
         "and <= 2 entries over 3 bits; a case "
         "is non-trivial when ordered covering applied at least one merge or default-route removal dropped an entry; "
-        "distinct = distinct canonical JSON of (table, target)")
+        "distinct = distinct canonical JSON of (table, target); deepening streams: user alias dictionaries that satisfy "
+        "AliasCover by construction (own key/mask or all halves after fixing 1-2 X positions, plus extras and unused keys; "
+        "the precondition is decided in Lean for every dictionary of both alias streams); 500/6000 pairs (a, b) of tables "
+        "over 2-6 active bits with a shared base (a orthogonal / overlapping sorted / ill-formed; b = minimised a, "
+        "default-route-removed a, a itself, mutated a, unrelated, over a subset of the bits, empty) for "
+        "table_is_subset_of both ways, expand_entries (ignore None/0/common Xs of b/random), get_common_xs, intersect, "
+        "with RouteSame decided in Lean and compared with the code's answer on well-formed orthogonal first tables; all "
+        "docstring examples of utils.py with their documented answers; the proved counterexamples; the whole Routes "
+        "enumeration, Routes(v) for v < 30, core(n) for -6..25 (exhaustive) and random RoutingTableEntry "
+        "constructions/str()")
 
 NONE_BIT = 24
 M32 = 0xffffffff
@@ -278,6 +331,44 @@ def gen_aliases(rng, table):
     return canon_aliases(al)
 
 
+def gen_valid_aliases(rng, table):
+    """a user alias dictionary that satisfies the proved precondition `AliasCover` on the sorted table:
+    every listed key/mask of the table is covered by its aliases (itself plus extras, or all halves
+    after fixing one or two of its X positions); keys that are not in the table carry anything"""
+    al = {}
+    if not table:
+        return []
+    for _ in range(rng.randint(1, 4)):
+        e = rng.choice(table)
+        k, m = e[1], e[2]
+        xs = [b for b in range(32) if not (m >> b) & 1 and not (k >> b) & 1]
+        r = rng.random()
+        if r < 0.45 or not xs:
+            vals = [[k, m]]
+        else:
+            sel = rng.sample(xs, min(len(xs), rng.choice([1, 1, 2])))
+            vals = []
+            for bits in range(1 << len(sel)):
+                kk, mm = k, m
+                for j, b in enumerate(sel):
+                    mm |= 1 << b
+                    if (bits >> j) & 1:
+                        kk |= 1 << b
+                vals.append([kk, mm])
+        for _ in range(rng.randint(0, 2)):
+            v = refine_km(rng, k, m) if rng.random() < 0.6 else list(rng.choice(table)[1:3])
+            if v not in vals:
+                vals.append(v)
+        rng.shuffle(vals)
+        al[(k, m)] = vals
+    if rng.random() < 0.3:
+        o = rng.choice(table)
+        km = (o[1] ^ (1 << rng.randrange(32)), o[2])
+        if km not in al and not any((x[1], x[2]) == km for x in table):
+            al[km] = [list(rng.choice(table)[1:3])]
+    return canon_aliases(al)
+
+
 def gen_corner(rng):
     """aims at the dictionary corner cases of _Merge.apply: a member whose key/mask equals the merged
     one (so `aliases.pop` removes the freshly stored set), duplicate member key/masks, an alias entry
@@ -318,6 +409,9 @@ def gen_case(rng, kind=None):
          "methods": rng.choice(METHOD_LISTS), "internals": rng.random() < 0.3}
     if kind != "any" and rng.random() < 0.35:
         c["aliases"] = gen_aliases(rng, table)
+    elif kind != "any" and rng.random() < 0.3:
+        c["aliases"] = gen_valid_aliases(rng, table)
+        c["aliases_stream"] = "valid"
     return c
 
 
@@ -425,10 +519,13 @@ def out_table(res):
 
 def eval_cases(ctx, cases):
     mts = [c for c in cases if c["kind"] == "mts"]
-    cases = [c for c in cases if c["kind"] != "mts"]
+    uts = [c for c in cases if c["kind"].startswith("u_")]
+    cases = [c for c in cases if c["kind"] != "mts" and not c["kind"].startswith("u_")]
     _eval_plain(ctx, cases)
     if mts:
         eval_mts(ctx, mts)
+    if uts:
+        eval_utils(ctx, uts)
 
 
 def _eval_plain(ctx, cases):
@@ -440,10 +537,14 @@ def _eval_plain(ctx, cases):
             idx.append((ci, "m", name))
         # the property oracle on every table the implementation returned
         for name, res in impl.items():
-            tb = out_table(res) if name not in ("best", "ins", "oc_al") else None
+            tb = out_table(res) if name not in ("best", "ins") else None
             if tb is not None:
                 reqs.append({"suite": "c04", "op": "equiv", "a": c["table"], "b": tb})
                 idx.append((ci, "o", name))
+        if c.get("aliases") is not None and "oc_al" in impl:
+            # the proved precondition on a user alias dictionary (AliasCover on the sorted table), decided in Lean
+            reqs.append({"suite": "c04u", "op": "aliasok", "table": c["table"], "aliases": c["aliases"]})
+            idx.append((ci, "o", "__aliasok"))
     models = [dict() for _ in cases]
     oracles = [dict() for _ in cases]
     for (ci, what, name), r in zip(idx, ctx.lean(reqs)):
@@ -468,7 +569,7 @@ def judge(ctx, c, impl, model, orc):
         if m != res:
             ctx.mismatch("c04." + name, "impl=%r model=%r" % (res, m), desc)
     # ---- property oracle
-    targets = {"rd": c["target"], "oc": c["target"], "oc_nr": None, "oc2": None, "ocmin": c["target"],
+    targets = {"oc_al": None, "rd": c["target"], "oc": c["target"], "oc_nr": None, "oc2": None, "ocmin": c["target"],
                "mt": c["target"], "mt_default": c["target2"], "rd_none": None, "oc_none": None, "ocmin_none": None}
     # sizes reached by the unbounded runs (for the "best size reached" clause)
     reach = {}
@@ -485,7 +586,17 @@ def judge(ctx, c, impl, model, orc):
             if "exc" in res:
                 ctx.violation("undocumented-exception-" + res["exc"], "ordered_covering with aliases raised %s at %s"
                               % (res["exc"], res.get("where")), desc)
-            continue
+                continue
+            ok = orc.get("__aliasok") or {}
+            if "ok" not in ok:
+                ctx.tag("aliases_precondition_not_decided")       # > 16 varying bits
+                continue
+            ctx.tag("aliases_precondition_" + ("holds" if ok["ok"] else "fails"))
+            if c.get("aliases_stream") == "valid" and not ok["ok"]:
+                ctx.tag("aliases_generator_invalid")      # harness-internal; such a case is simply not judged
+            if not ok["ok"]:
+                continue      # outside the proved precondition: correspondence only
+            # inside the precondition: orderedCovering_userAliases applies, fall through to the oracle
         if name in ("best", "ins"):
             if any(isinstance(x, dict) and "exc" in x for x in (res if isinstance(res, list) else [res])):
                 ctx.tag("internal_exception")
@@ -654,6 +765,384 @@ def eval_mts(ctx, cases):
 
 
 # --------------------------------------------------------------------------
+# rig/routing_table/utils.py (table_is_subset_of, expand_entries, get_common_xs, intersect) and entries.py
+FULL_SOURCES = (1 << 25) - 1
+EXPAND_LIMIT = 4096
+# table_is_subset_of / expand_entries / get_common_xs, Routes.core / core_num / initial and RoutingTableEntry.__str__
+# are NOT used by the minimisers, so a change of their behaviour cannot violate C04.  A difference between these helpers
+# and their Lean models is therefore recorded in the evidence (coverage.helper_deviations, tag helper_deviation_*) and
+# does not influence the verdict, unless escalation is asked for (VERIF_C04_HELPERS=strict).  `intersect` is used by the
+# minimisers and stays an ordinary correspondence mismatch.
+import os as _os
+HELPERS_STRICT = _os.environ.get("VERIF_C04_HELPERS", "") == "strict"
+
+
+def helper_dev(ctx, suite, detail, case):
+    if HELPERS_STRICT:
+        ctx.mismatch(suite, detail, case)
+        return
+    ctx.tag("helper_deviation_" + suite)
+    lst = ctx.extra.setdefault("helper_deviations", [])
+    if len(lst) < 5:
+        lst.append({"suite": suite, "detail": detail[:600], "case": case})
+
+
+def expansion_size(a, ignore):
+    """number of entries expand_entries would enumerate (before the seen_keys filter)"""
+    return sum(1 << bin(~e[1] & ~e[2] & ~ignore & M32).count("1") for e in a)
+
+
+def common_xs_py(b):
+    k = m = 0
+    for e in b:
+        k |= e[1]
+        m |= e[2]
+    return ~(k | m) & M32
+
+
+def gen_small_table(rng, pos, base_key, base_mask, kind, n, routes, smode, px):
+    table, tries = [], 0
+    while len(table) < n and tries < 8 * n + 20:
+        tries += 1
+        key, mask = base_key, base_mask
+        for b in pos:
+            r = rng.random()
+            if kind == "ill" and r > 0.93:
+                key |= 1 << b
+            elif r >= px:
+                mask |= 1 << b
+                if rng.random() < 0.5:
+                    key |= 1 << b
+        if kind == "orth" and any(km_intersect((key, mask), (e[1], e[2])) for e in table):
+            continue
+        route = rng.choice(routes)
+        table.append([route, key, mask, gen_sources(rng, smode, route, False)])
+    if kind != "orth" or rng.random() < 0.3:
+        table.sort(key=lambda e: generality(e[1], e[2]))
+    return table
+
+
+def gen_utils_case(rng):
+    nbits = rng.choice([2, 3, 3, 4, 4, 5, 6])
+    pos = sorted(rng.sample(range(32), nbits))
+    base_mask = base_key = 0
+    mode = rng.random()
+    if mode < 0.5:                      # inactive positions fixed to a common value in both tables
+        base_mask = M32 & ~sum(1 << b for b in pos)
+        base_key = rng.getrandbits(32) & base_mask
+    elif mode < 0.75:                   # a share fixed, the rest X everywhere (common Xs of b unless b is empty)
+        for b in range(32):
+            if b not in pos and rng.random() < 0.5:
+                base_mask |= 1 << b
+                if rng.random() < 0.5:
+                    base_key |= 1 << b
+    routes = gen_routes(rng, rng.randint(1, 4))
+    smode = rng.choice(["unknown", "default", "mix", "any"])
+    kind = rng.choice(["orth", "orth", "orth", "sorted", "sorted", "ill"])
+    px = rng.choice([0.0, 0.15, 0.3, 0.5])
+    a = gen_small_table(rng, pos, base_key, base_mask, kind, rng.choice([0, 1, 2, 3, 4, 6, 8, 12]), routes, smode, px)
+    how = rng.choice(["min", "min", "rd", "self", "mutate", "mutate", "other", "other", "empty", "sub"])
+    c = {"kind": "u_subset", "akind": kind, "a": a, "how": how,
+         "ignore": rng.choice([None, None, 0, "b", common_xs_py(a) | rng.getrandbits(32)])}
+    if how in ("other", "sub"):
+        p2 = pos if how == "other" else sorted(rng.sample(pos, rng.randint(0, len(pos))))
+        bm = base_mask if how == "other" else base_mask | sum(1 << b for b in pos if b not in p2 and rng.random() < 0.5)
+        c["b"] = gen_small_table(rng, p2, base_key & bm, bm, rng.choice(["orth", "sorted"]), rng.choice([0, 1, 2, 4, 6]),
+                                 routes, smode, px)
+    elif how == "self":
+        c["b"] = [list(e) for e in a]
+        if kind == "orth":
+            rng.shuffle(c["b"])
+    elif how == "empty":
+        c["b"] = []
+    elif how == "mutate":
+        b = [list(e) for e in a]
+        for _ in range(rng.randint(1, 2)):
+            if not b:
+                break
+            i = rng.randrange(len(b))
+            r = rng.random()
+            if r < 0.3:
+                b[i][0] = rng.choice(routes + [1 << rng.randrange(24)])
+            elif r < 0.5:
+                del b[i]
+            elif r < 0.7 and pos:
+                bit = 1 << rng.choice(pos)
+                b[i][2] &= ~bit
+                b[i][1] &= ~bit
+            elif r < 0.85 and pos:
+                b[i][1] ^= (1 << rng.choice(pos)) & b[i][2]
+            else:
+                b[i][3] = gen_sources(rng, "any", b[i][0], False)
+        c["b"] = b
+    c["pairs"] = [[rng.choice(a)[1:3] if a and rng.random() < 0.7 else [rng.getrandbits(32), rng.getrandbits(32)],
+                   rng.choice(a)[1:3] if a and rng.random() < 0.7 else [rng.getrandbits(32), rng.getrandbits(32)]]
+                  for _ in range(3)]
+    return c
+
+
+def doc_examples():
+    """the documented examples of utils.py (docstrings), as cases with the documented answers"""
+    from rig.routing_table import Routes as R
+    N, NE, E, S, SW = (1 << R.north), (1 << R.north_east), (1 << R.east), (1 << R.south), (1 << R.south_west)
+    U = 1 << NONE_BIT
+    t = [[N | NE, 0x0, 0xf, U], [E, 0x1, 0xf, U], [SW, 0x5, 0xf, U], [N | NE, 0x8, 0xf, U], [E, 0x9, 0xf, U],
+         [SW, 0xe, 0xf, U], [N | NE, 0xc, 0xf, U], [S | SW, 0x0, 0xb, U]]
+    hi = 0xfffffff0
+    e2 = [[0, 0b0100, hi | 0b1100, U], [0, 0b0010, hi | 0b0010, U]]
+    return [
+        {"kind": "u_doc", "name": "table_is_subset_of/minimised", "a": t, "how": "min", "expect": True, "expect_rev": False},
+        {"kind": "u_doc", "name": "table_is_subset_of/default-route", "a": [[N, 0x0, 0xf, S]], "how": "given", "b": [],
+         "expect": True},
+        {"kind": "u_doc", "name": "expand_entries/common-x", "a": e2, "how": "given", "b": e2, "ignore": None,
+         "expect_expand": [[0, 0b0100, hi | 0b1110, U], [0, 0b0110, hi | 0b1110, U], [0, 0b0010, hi | 0b1110, U],
+                           [0, 0b1010, hi | 0b1110, U], [0, 0b1110, hi | 0b1110, U]], "expect_common": 0b0001},
+        {"kind": "u_doc", "name": "expand_entries/duplicates", "a": [[N, 0b0000, 0b1111, U], [S, 0b0000, 0b1011, U]],
+         "how": "given", "b": [], "ignore": None,
+         "expect_expand": [[N, 0b0000, 0b1111, U], [S, 0b0100, 0b1111, U]]},
+        {"kind": "u_doc", "name": "expand_entry", "a": [[0, 0b0100, hi | 0b1100, U]], "how": "given", "b": [],
+         "ignore": 0xfffffff1, "expect_expand": [[0, 0b0100, hi | 0b1110, U], [0, 0b0110, hi | 0b1110, U]]},
+        {"kind": "u_doc", "name": "intersect", "a": [], "how": "given", "b": [],
+         "pairs": [[[0b0000, 0b1100], [0b0010, 0b1110]], [[0b0000, 0b1100], [0b1100, 0b1100]]],
+         "expect_pairs": [True, False]},
+    ]
+
+
+# limits of the library's checker that are PROVED in Props/C04.lean (tableIsSubsetOf_unsound_overlapping,
+# _unsound_illformed, _incomplete_overlapping) and the out-of-domain counterexample of minimise_needs_sources;
+# replayed on the real code on every run (documentation, not violations of C04)
+def fixed_replays():
+    E, N, U, W = 1, 4, 1 << NONE_BIT, 8
+    return [
+        {"kind": "u_fixed", "name": "subset-unsound-overlapping", "a": [[E, 0, 1, U], [N, 0, 2, U]], "b": [[E, 0, 0, U]],
+         "expect": True, "spec_same": False},
+        {"kind": "u_fixed", "name": "subset-unsound-illformed", "a": [[E, 1, 0, U], [N, 1, 1, U]], "b": [[E, 1, 1, U]],
+         "expect": True, "spec_same": False},
+        {"kind": "u_fixed", "name": "subset-incomplete-overlapping", "a": [[E, 0, 1, U], [E, 1, 1, U], [N, 2, 2, U]],
+         "b": [[E, 0, 0, U]], "expect": False, "spec_same": True},
+        {"kind": "u_fixed", "name": "aliases-precondition-needed", "a": [[E, 5, 7, U], [N, 1, 1, U], [E, 1, 1, U]],
+         "aliases": [[[1, 1], [[0, 3]]]], "expect_oc": [[E, 1, 1, U], [N, 1, 1, U]], "spec_equiv": False},
+        {"kind": "u_fixed", "name": "minimise-empty-sources", "a": [[E, 0, 0xf, 0], [E, 1, 0xf, W]], "minimise": True,
+         "expect_min": [], "spec_equiv": False},
+    ]
+
+
+def _subset(a, b):
+    import warnings
+    from rig.routing_table import utils
+    with warnings.catch_warnings():
+        warnings.simplefilter("ignore")
+        return bool(utils.table_is_subset_of(to_impl(a), to_impl(b)))
+
+
+def _expand(a, ignore):
+    import warnings
+    from rig.routing_table import utils
+    with warnings.catch_warnings():
+        warnings.simplefilter("ignore")
+        return from_impl(list(utils.expand_entries(to_impl(a), ignore)))
+
+
+def with_full_sources(b):
+    return [[e[0], e[1], e[2], FULL_SOURCES] for e in b]
+
+
+def eval_utils(ctx, cases):
+    from rig.routing_table import utils, ordered_covering as ocm, remove_default_routes as rdm
+    S = "c04u"
+    prepared = []
+    reqs, idx = [], []
+
+    def ask(ci, name, rq):
+        reqs.append(rq)
+        idx.append((ci, name))
+    for ci, c in enumerate(cases):
+        a = c["a"]
+        impl = {}
+        if c["kind"] == "u_fixed" and c.get("minimise"):
+            impl["min"] = call(lambda: {"ok": from_impl(ocm.minimise(to_impl(a), None))})
+            ask(ci, "min", {"suite": "c04", "op": "ocmin", "table": a, "target": None})
+            if "ok" in impl["min"]:
+                ask(ci, "equiv_min", {"suite": "c04", "op": "equiv", "a": a, "b": impl["min"]["ok"]})
+            prepared.append((c, None, impl))
+            continue
+        if c["kind"] == "u_fixed" and "aliases" in c:
+            def oc_al():
+                r = ocm.ordered_covering(to_impl(a), None, aliases_to_impl(c["aliases"]), True)
+                return {"ok": {"table": from_impl(r[0]), "aliases": canon_aliases(r[1])}}
+            impl["oc"] = call(oc_al)
+            ask(ci, "oc", {"suite": "c04", "op": "oc", "table": a, "target": None, "aliases": c["aliases"], "no_raise": True})
+            ask(ci, "aliasok", {"suite": S, "op": "aliasok", "table": a, "aliases": c["aliases"]})
+            if "ok" in impl["oc"]:
+                ask(ci, "equiv_oc", {"suite": "c04", "op": "equiv", "a": a, "b": impl["oc"]["ok"]["table"]})
+            prepared.append((c, None, impl))
+            continue
+        how = c.get("how", "given")
+        if how == "min":
+            r = call(lambda: {"ok": from_impl(ocm.minimise(to_impl(a), None))})
+            b = r["ok"] if "ok" in r else []
+        elif how == "rd":
+            r = call(lambda: {"ok": from_impl(rdm.minimise(to_impl(a), None))})
+            b = r["ok"] if "ok" in r else []
+        else:
+            b = c["b"]
+        cb = common_xs_py(b)
+        ig = c.get("ignore")
+        ig = cb if ig == "b" else ig
+        ok_ab = expansion_size(a, cb) <= EXPAND_LIMIT
+        ok_ba = expansion_size(b, common_xs_py(a)) <= EXPAND_LIMIT
+        ok_ex = expansion_size(a, common_xs_py(a) if ig is None else ig) <= EXPAND_LIMIT
+        if ok_ab:
+            impl["ab"] = call(lambda: _subset(a, b))
+            ask(ci, "ab", {"suite": S, "op": "subset", "a": a, "b": b})
+        if ok_ba:
+            impl["ba"] = call(lambda: _subset(b, a))
+            ask(ci, "ba", {"suite": S, "op": "subset", "a": b, "b": a})
+        if ok_ex:
+            impl["expand"] = call(lambda: _expand(a, ig))
+            ask(ci, "expand", {"suite": S, "op": "expand", "table": a, "ignore": ig})
+        impl["common_a"] = call(lambda: utils.get_common_xs(to_impl(a)))
+        ask(ci, "common_a", {"suite": S, "op": "commonxs", "table": a})
+        impl["common_b"] = call(lambda: utils.get_common_xs(to_impl(b)))
+        ask(ci, "common_b", {"suite": S, "op": "commonxs", "table": b})
+        for pi, (x, y) in enumerate(c.get("pairs", [])):
+            impl["int%d" % pi] = call(lambda: bool(utils.intersect(x[0], x[1], y[0], y[1])))
+            ask(ci, "int%d" % pi, {"suite": S, "op": "intersect", "ka": x[0], "ma": x[1], "kb": y[0], "mb": y[1]})
+        # the specification side: RouteEquiv, RouteSame (= RouteEquiv against b with every source listed) and the
+        # domain in which table_is_subset_of is proved exact
+        ask(ci, "cls_a", {"suite": S, "op": "classify", "a": a})
+        ask(ci, "cls_b", {"suite": S, "op": "classify", "a": b})
+        ask(ci, "same_ab", {"suite": "c04", "op": "equiv", "a": a, "b": with_full_sources(b)})
+        ask(ci, "same_ba", {"suite": "c04", "op": "equiv", "a": b, "b": with_full_sources(a)})
+        prepared.append((c, b, impl))
+    replies = [dict() for _ in cases]
+    for (ci, name), r in zip(idx, ctx.lean(reqs)):
+        replies[ci][name] = r
+    for (c, b, impl), rep in zip(prepared, replies):
+        ctx.traces += 1
+        desc = dict(c)
+        if b is not None:
+            desc["b"] = b
+        ctx.tag(c["kind"])
+        if c["kind"] == "u_fixed" and c.get("minimise"):
+            if rep.get("min") != impl["min"]:
+                helper_dev(ctx, "c04.ocmin-out-of-domain", "impl=%r model=%r" % (impl["min"], rep.get("min")), desc)
+            eq = (rep.get("equiv_min") or {}).get("equiv")
+            if impl["min"].get("ok") == c["expect_min"] and eq is c["spec_equiv"]:
+                ctx.tag("ood_" + c["name"] + "_reproduced")
+                ctx.extra.setdefault("out_of_domain", {})[c["name"]] = (
+                    "ordered_covering.minimise(%r) returns %r on the real code: the entry with sources=set() is merged "
+                    "with a straight-through entry and the merged entry is removed as default-routed although the first "
+                    "entry never listed a source link; sources=set() is outside the documented domain ({None} = unknown), "
+                    "so this is a note (theorem minimise_needs_sources), not a violation" % (c["a"], impl["min"].get("ok")))
+            else:
+                helper_dev(ctx, "c04.ood-replay", "the out-of-domain counterexample of minimise_needs_sources no longer "
+                           "reproduces: impl=%r equiv=%r" % (impl["min"], eq), desc)
+            ctx.case({"fixed": c["name"]}, True)
+            continue
+        if c["kind"] == "u_fixed" and "aliases" in c:
+            if norm_model("oc", rep.get("oc")) != impl["oc"]:
+                ctx.mismatch("c04.oc_al", "impl=%r model=%r" % (impl["oc"], rep.get("oc")), desc)
+            eq = (rep.get("equiv_oc") or {}).get("equiv")
+            if (impl["oc"].get("ok", {}).get("table") == c["expect_oc"] and eq is c["spec_equiv"] and
+                    (rep.get("aliasok") or {}).get("ok") is False):
+                ctx.tag("ood_" + c["name"] + "_reproduced")
+                ctx.extra.setdefault("out_of_domain", {})[c["name"]] = (
+                    "ordered_covering(%r, aliases=%r) returns %r on the real code, which routes key %r differently: the "
+                    "dictionary violates AliasCover (theorem userAliases_precondition_needed); a note, not a violation"
+                    % (c["a"], c["aliases"], c["expect_oc"], (rep.get("equiv_oc") or {}).get("key")))
+            else:
+                helper_dev(ctx, "c04.ood-replay", "the counterexample of userAliases_precondition_needed no longer "
+                           "reproduces: impl=%r equiv=%r aliasok=%r" % (impl["oc"], eq, rep.get("aliasok")), desc)
+            ctx.case({"fixed": c["name"]}, True)
+            continue
+        for name, res in impl.items():
+            if rep.get(name) != res:
+                (ctx.mismatch if name.startswith("int") else lambda *x: helper_dev(ctx, *x))(
+                    "c04u." + name, "impl=%r model=%r" % (res, rep.get(name)), desc)
+        # documented answers
+        if c["kind"] in ("u_doc", "u_fixed"):
+            checks = [("expect", impl.get("ab")), ("expect_rev", impl.get("ba")), ("expect_expand", impl.get("expand")),
+                      ("expect_common", impl.get("common_a")),
+                      ("expect_pairs", [impl.get("int%d" % i) for i in range(len(c.get("pairs", [])))])]
+            for key, got in checks:
+                if key in c and got != c[key]:
+                    (ctx.mismatch if key == "expect_pairs" else lambda *x: helper_dev(ctx, *x))("c04u.documented-example", "%s: %s is %r, documented/proved %r" % (c["name"], key, got, c[key]), desc)
+            if "spec_same" in c and (rep.get("same_ab") or {}).get("equiv") is not c["spec_same"]:
+                helper_dev(ctx, "c04u.documented-example", "%s: RouteSame is %r" % (c["name"], rep.get("same_ab")), desc)
+            if c["kind"] == "u_fixed":
+                ctx.tag("limit_" + c["name"] + "_reproduced")
+                ctx.extra.setdefault("library_oracle_limits", {})[c["name"]] = (
+                    "table_is_subset_of(%r, %r) = %r on the real code while RouteSame is %r" % (c["a"], c["b"], impl.get("ab"), c["spec_same"]))
+        # proved relation between the library's checker and the specification
+        for d, x, cls, same in (("ab", a_of(c), rep.get("cls_a"), rep.get("same_ab")),
+                                ("ba", b, rep.get("cls_b"), rep.get("same_ba"))):
+            if d not in impl or not isinstance(impl[d], bool) or not isinstance(same, dict) or "equiv" not in same:
+                continue
+            exact = bool(cls and cls.get("wf") and cls.get("orth"))
+            ctx.tag("subset_%s_%s" % ("exactdomain" if exact else "outside", impl[d]))
+            if exact and impl[d] != same["equiv"]:
+                # contradicts tableIsSubsetOf_iff unless model and code differ
+                helper_dev(ctx, "c04u.subset-vs-spec", "table_is_subset_of answers %r but RouteSame is %r on a well-formed "
+                             "orthogonal first table (key %r)" % (impl[d], same["equiv"], same.get("key")), desc)
+            elif not exact and impl[d] != same["equiv"]:
+                ctx.tag("subset_outside_domain_" + ("unsound" if impl[d] else "incomplete"))
+        nontriv = bool(impl.get("ab") is True and b != c["a"]) or (
+            isinstance(impl.get("expand"), list) and len(impl["expand"]) != len(c["a"]))
+        ctx.case({"a": c["a"], "b": b, "ignore": c.get("ignore")}, nontriv)
+
+
+def a_of(c):
+    return c["a"]
+
+
+def eval_routes(ctx):
+    """entries.py: the whole Routes enumeration and core() (finite: exhaustive), RoutingTableEntry construction/str"""
+    from rig.routing_table import Routes, RoutingTableEntry
+    S = "c04u"
+
+    def exc(f):
+        try:
+            return {"ok": int(f())}
+        except ValueError:
+            return {"err": "ValueError"}
+    reqs, impls = [{"suite": S, "op": "members"}], [[[m.name, int(m.value)] for m in Routes]]
+    for v in range(0, 30):
+        try:
+            r = Routes(v)
+            impl = {"value": {"ok": v}, "is_link": bool(r.is_link), "is_core": bool(r.is_core),
+                    "core_num": exc(lambda: r.core_num), "opposite": exc(lambda: r.opposite), "initial": r.initial}
+        except ValueError:
+            impl = None
+        reqs.append({"suite": S, "op": "route", "value": v})
+        impls.append(impl)
+    for num in range(-6, 26):
+        reqs.append({"suite": S, "op": "core", "num": num})
+        impls.append(exc(lambda: Routes.core(num)))
+    rng = ctx.rng
+    for _ in range(ctx.scale(60, 600)):
+        route = [rng.randrange(24) for _ in range(rng.randint(0, 5))]
+        r = rng.random()
+        srcs = None if r < 0.3 else [rng.choice(list(range(24)) + [24]) for _ in range(rng.randint(0, 4))]
+        key, mask = rng.getrandbits(32), rng.getrandbits(32)
+        if rng.random() < 0.5:
+            key &= mask
+        args = [[Routes(i) for i in route], key, mask] + ([] if srcs is None else [[None if i == 24 else Routes(i) for i in srcs]])
+        e = RoutingTableEntry(*args)
+        reqs.append({"suite": S, "op": "entry", "route": route, "key": key, "mask": mask, "sources": srcs})
+        impls.append({"entry": from_impl([e])[0], "str": str(e)})
+    for rq, impl, got in zip(reqs, impls, ctx.lean(reqs)):
+        ctx.traces += 1
+        if rq["op"] == "route" and impl is None:
+            if got.get("value") != {"err": "ValueError"}:
+                helper_dev(ctx, "c04u.route", "Routes(%d) raises ValueError, model %r" % (rq["value"], got), rq)
+            continue
+        if got != impl:
+            helper_dev(ctx, "c04u." + rq["op"], "impl=%r model=%r" % (impl, got), rq)
+    ctx.tag("routes_enum_exhaustive")
+
+
+# --------------------------------------------------------------------------
 # exhaustive small scope (thorough tier)
 def exhaustive_cases(nbits, max_len):
     """every Good table of <= max_len entries over `nbits` key bits with two entry flavours:
@@ -786,6 +1275,11 @@ def run(ctx):
             cases.append(gen_case(rng))
     for i in range(0, len(cases), 500):
         eval_cases(ctx, cases[i:i + 500])
+    # rig/routing_table/utils.py and entries.py (deepening round)
+    ucases = doc_examples() + fixed_replays() + [gen_utils_case(rng) for _ in range(ctx.scale(500, 6000) * (4 if ctx.extended else 1))]
+    for i in range(0, len(ucases), 500):
+        eval_cases(ctx, ucases[i:i + 500])
+    eval_routes(ctx)
     if not ctx.quick:
         batch = []
         for c in exhaustive_cases(2, 4):
